@@ -221,6 +221,7 @@ func (s *CallStack) PushFID(src *token.Location, fid string, pkg string, name st
 		Name:          name,
 		HeightLogical: heff,
 	})
+	verifOnPush(s)
 	return nil
 }
 
@@ -303,6 +304,7 @@ func (s *CallStack) Pop() CallFrame {
 	f := s.Frames[len(s.Frames)-1]
 	s.Frames[len(s.Frames)-1] = CallFrame{}
 	s.Frames = s.Frames[:len(s.Frames)-1]
+	verifOnPop(s)
 	return f
 }
 
